@@ -22,6 +22,13 @@ def main():
     for cid, v, det in bad:
         print(f"{cid}: {v} {str(det)[:160]}")
     print(f"{len(res)} patches of {corpus}/, {len(res) - len(bad)} as wanted ({want}), {len(bad)} not")
+    import json
+    import subprocess
+    head = subprocess.run(["git", "-C", os.environ.get("VERIF_REPO", "/repo"), "rev-parse", "--short=8", "HEAD"],
+                          capture_output=True, text=True).stdout.strip()
+    json.dump({"repo_head": head, "verdict_of_the_target_check": {cid: (v if v in ("ok", "violation") else f"{v}: {str(det)[:120]}")
+                                                                   for _, cid, v, det in res}},
+              open(os.path.join(root, corpus, "target_now.json"), "w"), indent=1, sort_keys=True)
     return 0
 
 
